@@ -12,7 +12,7 @@ import (
 )
 
 func init() {
-	props["C04"] = &propDef{extraPkgs: []string{jsonPatchPkg}, run: runC04, explanation: "Structural clause of C04 decided statically: the success terms (def-use reconstruction with repo callees inlined, rewritten into the algebra {JCS,H,mhEnc,mhDec,b64,b64dec}) of GetRevealValue, GetCommitment and GetCommitmentFromRevealValue equal the documented normal forms for a symbolic hash code, and substituting the reveal term into commitment-from-reveal rewrites (axiom mhDec(b64dec(b64(mhEnc(x,c)))) = (c,x)) to the commitment term; leaf contracts of the hash primitives (code table, one Write of the data, Sum(nil)); every jws.JWK field is serialised (so every member incl. nonce is hashed); the parser's reveal/commitment extraction table per operation type. Not decided: injectivity of JCS∘Marshal and collision resistance (needed for 'different keys ⇒ different commitments'). (T3) the reveal value an update / recover / deactivate reports is the RevealValue member of the decoded request (one store) and is the value handed to IsValidModelMultihash together with the signing key. The parser's reveal-value rule (C02.G3) runs inside this check; both accessors parse anchored operations in batch mode. IsValidModelMultihash's contract is part of the reveal rule; the canonical order's prefix case is decided on the three orderings of the two key lengths. All of C07 runs inside this check."}
+	props["C04"] = &propDef{extraPkgs: []string{jsonPatchPkg}, run: runC04, explanation: "Structural clause of C04 decided statically: the success terms (def-use reconstruction with repo callees inlined, rewritten into the algebra {JCS,H,mhEnc,mhDec,b64,b64dec}) of GetRevealValue, GetCommitment and GetCommitmentFromRevealValue equal the documented normal forms for a symbolic hash code, and substituting the reveal term into commitment-from-reveal rewrites (axiom mhDec(b64dec(b64(mhEnc(x,c)))) = (c,x)) to the commitment term; leaf contracts of the hash primitives (code table, one Write of the data, Sum(nil)); every jws.JWK field is serialised (so every member incl. nonce is hashed); the parser's reveal/commitment extraction table per operation type. Not decided: injectivity of JCS∘Marshal and collision resistance (needed for 'different keys ⇒ different commitments'). (T3) the reveal value an update / recover / deactivate reports is the RevealValue member of the decoded request (one store) and is the value handed to IsValidModelMultihash together with the signing key. The parser's reveal-value rule (C02.G3) runs inside this check; both accessors parse anchored operations in batch mode. IsValidModelMultihash's contract is part of the reveal rule; the canonical order's prefix case is decided on the three orderings of the two key lengths. All of C07 runs inside this check. The members of jws.JWK are the key material and the nonce only (closed set); the parser's closed set of refusals for signed data runs here."}
 }
 
 const (
@@ -256,6 +256,20 @@ func runC04(c *Ctx) {
 			ok := st.Field(i).Exported() && name != "-" && name != "" && !names[name]
 			names[name] = true
 			c.Check("C04.T1", "jws.JWK."+st.Field(i).Name(), ok, st.Field(i).Pos(), fmt.Sprintf("field %s is part of the canonical JSON that is hashed (json tag %q, exported, unique name)", st.Field(i).Name(), tag))
+		}
+		// … and nothing else is: the members that are hashed are the key material of RFC 7517 / 7518 (kty, crv, x, y, n, e)
+		// and the nonce — a member added to the struct (kid, use, alg, …) is carried from the signed key into the
+		// canonical bytes, and the reveal value of a key exported with it no longer maps to the commitment made for the key
+		{
+			spec := map[string]bool{"kty": true, "crv": true, "x": true, "y": true, "n": true, "e": true, "nonce": true}
+			var more []string
+			for nm := range names {
+				if !spec[nm] {
+					more = append(more, nm)
+				}
+			}
+			sort.Strings(more)
+			c.Check("C04.T1", "jws.JWK:members-are-key-material-and-nonce", len(more) == 0, jwk.Obj().Pos(), fmt.Sprintf("members of jws.JWK beyond kty, crv, x, y, n, e, nonce: %v", more))
 		}
 		// no custom MarshalJSON that could drop members
 		hasCustom := c.Method("jws", "JWK", "MarshalJSON") != nil
